@@ -130,7 +130,7 @@ def standard_check(spec, argv):
     # ---- 2. proofs ----------------------------------------------------------------------
     targets = [f[:-2] + '.vo' for f in spec.props_files] + list(spec.model_targets)
     b = vlib.coq_build(targets)
-    scan = vlib.forbidden_scan()
+    scan = vlib.forbidden_scan(list(spec.props_files) + [t[:-3] + '.v' for t in spec.model_targets])
     rep = dict(theorems=[], assumptions={}, bad_axioms=[], ok=False, log='')
     if b['ok']:
         rep = vlib.props_report(spec.props_files)
@@ -219,7 +219,10 @@ def standard_check(spec, argv):
             print('KNOWN-FINDING: property=%s %s (%s)' % (prop, known[sig]['what'], sig))
             continue
         unknown_fail = True
-        rp = vlib.write_replay(prop, 'extra-' + re.sub(r'\W+', '_', sig)[:40], dict(property=prop, kind='extra', signature=sig, message=msg, detail=obj))
+        robj = dict(property=prop, kind='extra', signature=sig, message=msg, detail=obj)
+        if isinstance(obj, dict) and obj.get('case'):
+            robj['case'] = obj['case']
+        rp = vlib.write_replay(prop, 'extra-' + re.sub(r'\W+', '_', sig)[:40], robj)
         violations.append((rp, '' if obj is not None else 'no-failing-input-found'))
 
     # ---- tie broken without a monitor failure: search, then report ------------------------------
